@@ -59,6 +59,8 @@ type Session struct {
 	Blocks   [][]Child       `json:"blocks"`
 	Nest     string          `json:"nest"` // conc: plain | if | for
 	Pre      bool            `json:"pre"`  // conc: the locals the children assign already exist before the block
+	Quiet    []int           `json:"quiet"` // conc: blocks (1-based) followed directly by the next block, no statement between
+	Dups     []int           `json:"dups"`  // conc: per block, copies of one identical statement (obj.Bump()) among its children
 	NReq     int             `json:"nreq"` // conc on a pool: this many requests run the body at the same time
 }
 
@@ -383,7 +385,10 @@ func runLocals(s *Session, quiet time.Duration, seed int64, tmo time.Duration) (
 type Obj struct {
 	F1, F2, F3, F4, F5, F6, F7, F8 int64
 	In                             *Inner
+	N                              int64 // how often Bump ran
 }
+
+func (o *Obj) Bump() { atomic.AddInt64(&o.N, 1) }
 type Inner struct{}
 
 var curChildren map[string]Child
@@ -414,6 +419,20 @@ func childDo(id string) int64 {
 
 func (o *Obj) Hold(id string) int64   { return childDo(id) }
 func (i *Inner) Hold(id string) int64 { return childDo(id) }
+
+func quietOf(s *Session) []int {
+	if s.Quiet == nil {
+		return []int{}
+	}
+	return s.Quiet
+}
+
+// one entry per block
+func dupsOf(s *Session) []int {
+	d := make([]int, len(s.Blocks))
+	copy(d, s.Dups)
+	return d
+}
 
 func concText(s *Session) string {
 	pooled := s.Target == "pool"
@@ -453,6 +472,11 @@ func concText(s *Session) string {
 			ind = "    "
 		}
 		sb.WriteString(ind + "conc {\n")
+		if bi < len(s.Dups) {
+			for k := 0; k < s.Dups[bi]; k++ {
+				sb.WriteString(ind + "  obj.Bump()\n") // the same statement, several times: each is a statement of its own
+			}
+		}
 		for _, c := range b {
 			n++
 			switch c.Kind {
@@ -476,9 +500,17 @@ func concText(s *Session) string {
 			}
 		}
 		sb.WriteString(ind + "}\n")
-		fmt.Fprintf(&sb, "%safter(%s%d)\n", ind, qa, bi+1)
-		for _, x := range seen {
-			sb.WriteString(ind + x + "\n")
+		isQuiet := false
+		for _, qb := range s.Quiet {
+			if qb == bi+1 {
+				isQuiet = true
+			}
+		}
+		if !isQuiet {
+			fmt.Fprintf(&sb, "%safter(%s%d, obj.N)\n", ind, qa, bi+1)
+			for _, x := range seen {
+				sb.WriteString(ind + x + "\n")
+			}
 		}
 		if s.Nest == "if" || s.Nest == "for" {
 			sb.WriteString("  }\n")
@@ -506,12 +538,12 @@ func runConc(s *Session, quiet time.Duration, seed int64, tmo time.Duration) ([]
 	if s.Target == "pool" {
 		return runConcPool(s, o, tmo)
 	}
-	all = append(all, obs.Event{"ev": "cbegin", "blocks": blocks})
+	all = append(all, obs.Event{"ev": "cbegin", "blocks": blocks, "quiet": quietOf(s), "dups": dupsOf(s)})
 	text := concText(s)
 	dc := context.NewDataContext()
 	dc.Add("hold", childDo)
 	dc.Add("yes", func() bool { return true })
-	dc.Add("after", func(b int64) { o.Emit(obs.Event{"ev": "after", "b": b}) })
+	dc.Add("after", func(b int64, n int64) { o.Emit(obs.Event{"ev": "after", "b": b, "bumps": n}) })
 	dc.Add("see", func(c string, v int64) { o.Emit(obs.Event{"ev": "see", "c": c, "val": v}) })
 	dc.Add("obj", &Obj{In: &Inner{}})
 	dc.Add("mkloc", func() *Obj { return &Obj{In: &Inner{}} }) // an object that lives in a rule local
@@ -563,9 +595,9 @@ func runConcPool(s *Session, o *obs.Obs, tmo time.Duration) ([]obs.Event, bool) 
 	api := map[string]interface{}{
 		"hold": childDo,
 		"yes":  func() bool { return true },
-		"after": func(q string, b int64) {
+		"after": func(q string, b int64, bumps int64) {
 			n, _ := splitQ(q + "x")
-			o.Emit(obs.Event{"ev": "after", "b": b, "q": n})
+			o.Emit(obs.Event{"ev": "after", "b": b, "q": n, "bumps": bumps})
 		},
 		"see": func(q string, c string, v int64) {
 			n, _ := splitQ(q + "x")
@@ -627,7 +659,7 @@ func runConcPool(s *Session, o *obs.Obs, tmo time.Duration) ([]obs.Event, bool) 
 			}
 			blocks = append(blocks, bl)
 		}
-		all = append(all, obs.Event{"ev": "cbegin", "blocks": blocks})
+		all = append(all, obs.Event{"ev": "cbegin", "blocks": blocks, "quiet": quietOf(s), "dups": dupsOf(s)})
 		for _, e := range evs {
 			if eq, _ := e["q"].(int64); eq == q {
 				all = append(all, e)
